@@ -124,6 +124,19 @@ theorem compound_set_keeps_members (ex : Raw → Explode) (n : Node) (hnd : Keys
     · exact ⟨rfl, by rw [kids_withKids]; exact this⟩
     · exact ⟨rfl, by rw [kids_withKids]; exact this⟩
     · exact ⟨rfl, by rw [kids_withKids]; exact this⟩
+  | assignThenRaise vs =>
+    have := assignKids_hdrs n.sch.subs vs n.kids next hnd
+    simp only
+    split
+    · exact ⟨rfl, by rw [kids_withKids]; exact this⟩
+    · exact ⟨rfl, by rw [kids_withKids]; exact this⟩
+
+/-- the wider contract is inhabited and observable: an `explode` that sets year and month to None and then
+    raises (the `set(None)` fallback loop of `DateYYYYMMDD.explode` with a day member whose `valid_value` raises
+    on None) returns False and leaves year / month None, day as it was -/
+def exRaisingDay : Raw → Explode
+  | .str _ => .assignThenRaise [.none, .none]
+  | _ => .raises
 
 /-! ### every call -/
 
@@ -260,6 +273,59 @@ example : (compoundStep dateExplode (cblank exDate 1).1 (.set .none none) 10).ou
 example : (compoundStep dateExplode (cblank exDate 1).1 (.set (.str ['2', '0', '2', '3', '-', '0', '2', '-', '3', '0']) none) 10).out = .bool true := by rfl
 example : dateExplode (.str ['2', '0', '2', '3', '-', '0', '2', '-', '3', '0']) = .assign [.none, .none, .none] := by rfl
 example : dateExplode (.str [' ', '2', '0', '2', '4', '-', '0', '2', '-', '2', '9', ' ']) = .assign [.int 2024, .int 2, .int 29] := by rfl
+
+/-! ### `dateExplode` reads every Unicode decimal digit (the library's `\d` under `re.UNICODE`, `int()`) -/
+
+/-- **parseDate_is_scalar_date_adapt** — the date reader of `dateExplode` IS `Date.adapt` of the scalar model
+    (C04: compared with the real `Date` on texts of every `Nd` block) over the regenerated tables. -/
+theorem parseDate_is_scalar_date_adapt (E : Flatland.Scalar.Env) (hE : E.T = Compound.T) (s : Str) :
+    Flatland.Scalar.adapt E (.date true) (.str s) =
+      .ok ((Compound.parseDate s).map fun p => Flatland.Scalar.Native.date p.1 p.2.1 p.2.2) := by
+  simp only [Flatland.Scalar.adapt, Flatland.Scalar.adaptTemporalText, Compound.parseDate, hE, if_true]
+  cases Flatland.Scalar.matchDate Compound.T (Flatland.Scalar.strip Compound.T s) with
+  | none => rfl
+  | some r =>
+    obtain ⟨y, m, d⟩ := r
+    cases hv : Flatland.Scalar.validDate y m d <;> simp [hv]
+
+/-- **date_regex_pinned** — the source of `Date.regex` (re-read from scalars.py on every run into
+    `Generated/C04Tables.lean`) is the pattern `parseDate` transcribes: `\d` (with `re.UNICODE`: every `Nd`
+    character), not `[0-9]`.  An edit of the pattern breaks this obligation. -/
+theorem date_regex_pinned :
+    Flatland.Generated.C04.dateRegex = "^(?P<year>\\d{4})-(?P<month>\\d{2})-(?P<day>\\d{2})$" := rfl
+
+/-- counter-model: the reader with ASCII digits only (`[0-9]{4}-[0-9]{2}-[0-9]{2}`) -/
+def asciiTables : Flatland.Scalar.Tables := { Compound.T with zeros := [48] }
+def parseDateAscii (s : Str) : Option (Nat × Nat × Nat) :=
+  match Flatland.Scalar.matchDate asciiTables (Flatland.Scalar.strip asciiTables s) with
+  | some (y, m, d) => if Flatland.Scalar.validDate y m d then some (y, m, d) else none
+  | none => none
+
+/-- `'٢٠٢٤-٠٢-٢٩'` (Arabic-Indic digits): the code's reader takes it, an ASCII-only reader does not -/
+theorem ascii_reader_differs : ∃ s, Compound.parseDate s = some (2024, 2, 29) ∧ parseDateAscii s = none :=
+  ⟨['٢', '٠', '٢', '٤', '-', '٠', '٢', '-', '٢', '٩'], by decide, by decide⟩
+
+example : dateExplode (.str ['٢', '٠', '٢', '٤', '-', '٠', '٢', '-', '٢', '٩']) = .assign [.int 2024, .int 2, .int 29] := by rfl
+/-- mixed scripts in one field (ASCII, Arabic-Indic, full-width, Devanagari) -/
+example : dateExplode (.str ['2', '٠', '２', '4', '-', '०', '2', '-', '2', '９']) = .assign [.int 2024, .int 2, .int 29] := by rfl
+/-- near misses: one-digit month; 30 February in Arabic-Indic digits; a non-digit of a digit-like block -/
+example : dateExplode (.str ['2', '0', '2', '4', '-', '2', '-', '2', '9']) = .assign [.none, .none, .none] := by rfl
+example : dateExplode (.str ['٢', '٠', '٢', '٤', '-', '٠', '٢', '-', '٣', '٠']) = .assign [.none, .none, .none] := by rfl
+example : dateExplode (.str ['2', '0', '2', '4', '-', '0', '2', '-', '2', '²']) = .assign [.none, .none, .none] := by rfl
+/-- `strip()` removes Unicode whitespace (NBSP, ideographic space) and the trailing newline -/
+example : dateExplode (.str ['\u00a0', '2', '0', '2', '4', '-', '0', '2', '-', '2', '9', '\u3000', '\n']) =
+    .assign [.int 2024, .int 2, .int 29] := by rfl
+/-- the whole call: members hold 2024 / 2 / 29 after `set('٢٠٢٤-٠٢-٢٩')` -/
+example : (compoundStep dateExplode (cblank exDate 1).1 (.set (.str ['٢', '٠', '٢', '٤', '-', '٠', '٢', '-', '٢', '٩']) none) 10).node.kids.map
+    (fun c => c.ni.val) = [.int 2024, .int 2, .int 29] := by decide
+
+/-- the wider contract at work: members 2024 / 2 / 29, then a `set` whose explode sets a prefix and raises:
+    False, year and month None, day untouched, the same three members under the same keys -/
+def exAfterDate : MState := crun dateExplode ⟨(cblank exDate 1).1, 10⟩ (exDateHist.take 7)
+example : (compoundStep exRaisingDay exAfterDate.node (.set (.str ['j']) none) exAfterDate.next).out = .bool false := by rfl
+example : (compoundStep exRaisingDay exAfterDate.node (.set (.str ['j']) none) exAfterDate.next).node.kids.map (fun c => c.ni.val) =
+    [.none, .none, .int 29] := by decide
+example : keys (compoundStep exRaisingDay exAfterDate.node (.set (.str ['j']) none) exAfterDate.next).node = keys exAfterDate.node := by decide
 
 /-- a user-supplied first field is kept, the other two are generated -/
 example : (prepare [.mk { cid := 7, kind := .integer, name := some ['y'] } .none []] false (2, 3, 4)).map Schema.key =
